@@ -21,11 +21,17 @@ fn str_case<const N: usize>() {
     match arbitrary_str::<N>(&mut u) {
         Ok(s) => {
             assert!(s.len() <= N, "C19: text field beyond its capacity");
-            assert!(core::str::from_utf8(s.as_bytes()).is_ok(), "C19: text field is not well-formed UTF-8");
+            assert!(
+                core::str::from_utf8(s.as_bytes()).is_ok(),
+                "C19: text field is not well-formed UTF-8"
+            );
             kani::cover!(s.len() == N);
             kani::cover!(s.len() > 0 && s.as_bytes()[0] >= 0x80);
         }
-        Err(e) => assert!(matches!(e, Error::NotEnoughData), "C19: unexpected generator error"),
+        Err(e) => assert!(
+            matches!(e, Error::NotEnoughData),
+            "C19: unexpected generator error"
+        ),
     }
 }
 
@@ -46,7 +52,10 @@ fn bytes_case<const N: usize>() {
     let mut u = Unstructured::new(any_input(&buf));
     match arbitrary_bytes::<N>(&mut u) {
         Ok(b) => assert!(b.len() <= N, "C19: byte field beyond its capacity"),
-        Err(e) => assert!(matches!(e, Error::NotEnoughData), "C19: unexpected generator error"),
+        Err(e) => assert!(
+            matches!(e, Error::NotEnoughData),
+            "C19: unexpected generator error"
+        ),
     }
 }
 
@@ -68,7 +77,10 @@ pub fn c19_k_arbitrary_byte_array() {
             // the reference produced by the pointer cast points at 8 readable bytes of the input
             let k: usize = kani::any();
             kani::assume(k < 8);
-            assert!(a[k] == input[k], "C19: byte array does not alias the consumed input");
+            assert!(
+                a[k] == input[k],
+                "C19: byte array does not alias the consumed input"
+            );
         }
         Err(e) => {
             assert!(matches!(e, Error::NotEnoughData));
@@ -104,7 +116,10 @@ pub fn c19_k_ctap1_request() {
         Ok(ctap1::Request::Authenticate(a)) => {
             assert!(a.challenge.len() == 32 && a.app_id.len() == 32);
             let c = a.control_byte as u8;
-            assert!(c == 3 || c == 7 || c == 8, "C19: invalid control byte generated");
+            assert!(
+                c == 3 || c == 7 || c == 8,
+                "C19: invalid control byte generated"
+            );
         }
         Ok(ctap1::Request::Version) => {}
         Err(_) => {}
